@@ -84,6 +84,7 @@ type Eng struct {
 	intr        map[string]intrinsic
 	depth       int
 	curHS        *HarnessRun
+	curFn        *ssa.Function
 	pathFindings []*Finding
 }
 
@@ -124,7 +125,11 @@ func (e *Eng) pos(p token.Pos) string {
 }
 
 func (e *Eng) unsupported(format string, args ...interface{}) {
-	panic(pathEnd{kind: endUnsupported, msg: fmt.Sprintf(format, args...)})
+	msg := fmt.Sprintf(format, args...)
+	if e.curFn != nil {
+		msg += " (in " + e.curFn.String() + ")"
+	}
+	panic(pathEnd{kind: endUnsupported, msg: msg})
 }
 
 func (fr *frame) get(key ssa.Value) Value {
@@ -411,6 +416,7 @@ func (e *Eng) runFrame(fr *frame) {
 					fmt.Fprintf(os.Stderr, "%*s%s: %s\n", e.depth, "", fr.fn.Name(), instr)
 				}
 			}
+			e.curFn = fr.fn
 			if e.visitInstr(fr, instr) == kReturn {
 				return
 			}
